@@ -4,7 +4,7 @@
 cd /verif
 for d in seeded/*/; do
   id=$(basename $d)
-  out=$(tools/eval_patch.sh $d/patch.diff "$@")
+  out=$(tools/eval_patch.sh /verif/$d/patch.diff "$@")
   python3 - "$id" <<PY
 import json,sys,re
 sid=sys.argv[1]
